@@ -467,6 +467,12 @@ def finish(ctx, proofs, evaluations, distinct_nontrivial, rule, samples, extra_c
     if extra_cov:
         cov.update(extra_cov)
     cov.update(ctx.coverage)
+    # schema guards: `exhaustive` must be a boolean, integer counters must be ints
+    if "exhaustive" in cov and not isinstance(cov["exhaustive"], bool):
+        cov["exhaustive_cases"] = cov.pop("exhaustive")
+    for k in ("states", "transitions", "traces_validated_against_impl", "programs", "disagreements_checked"):
+        if k in cov and not isinstance(cov[k], int):
+            cov[k + "_detail"] = cov.pop(k)
     ev = dict(property_id=ctx.id, tier=ctx.tier, seed=ctx.seed, level=level, coverage=cov,
               assumptions=list(assumptions) + ctx.assumptions, wall_s=round(time.time() - ctx.t0, 2),
               violations=len(violations), known_findings_seen=sorted(seen_kf))
